@@ -378,8 +378,17 @@ def strLe : Str → Str → Bool
   | _ :: _, [] => false
   | a :: as, b :: bs => if a.val < b.val then true else if b.val < a.val then false else strLe as bs
 
+/-- stable sort (`sorted(children, key=…)`), by insertion so that it evaluates structurally -/
+def insertBy {α : Type} (le : α → α → Bool) (a : α) : List α → List α
+  | [] => [a]
+  | b :: l => if le a b then a :: b :: l else b :: insertBy le a l
+
+def sortBy {α : Type} (le : α → α → Bool) : List α → List α
+  | [] => []
+  | a :: l => insertBy le a (sortBy le l)
+
 def datatypes (m : Module) : List DatatypeEl :=
-  (stdDatatypes ++ customDatatypes m).mergeSort (fun a b => strLe a.key.ident.render b.key.ident.render)
+  sortBy (fun a b => strLe a.key.ident.render b.key.ident.render) (stdDatatypes ++ customDatatypes m)
 
 /-! ## `_build_spec_object_types`, `_build_specification_type` -/
 
@@ -404,8 +413,8 @@ def specObjectType (m : Module) (t : Option ReqType) : SpecTypeEl :=
     custom := (adefsOf m (t.map (·.uuid))).map attrDefEl }
 
 def specTypes (m : Module) : List SpecTypeEl :=
-  ((reqTypes m).map (specObjectType m)).mergeSort
-    (fun a b => strLe (sotIdent a.rt).render (sotIdent b.rt).render)
+  sortBy (fun a b => strLe (sotIdent a.rt).render (sotIdent b.rt).render)
+    ((reqTypes m).map (specObjectType m))
 
 def mtOf (m : Module) : Option Str := m.type.map (fun t => up t.uuid)
 
@@ -491,6 +500,9 @@ def hierarchyL : List Folder → List HierEl
   | f :: fs => f.hierarchy ++ hierarchyL fs
 end
 
+/-- `f"<div>{…}</div>"` -/
+def wrapDiv (s : Str) : Str := "<div>".toList ++ s ++ "</div>".toList
+
 def specification (xhtml : Str → Option Str) (m : Module) : SpecificationEl :=
   { uuid := up m.uuid
     longName := nonEmpty m.longName
@@ -498,7 +510,7 @@ def specification (xhtml : Str → Option Str) (m : Module) : SpecificationEl :=
     mt := mtOf m
     values := stdSpecificationAttrs.map fun x =>
       { name := x.1, kind := x.2,
-        theValue := xhtml ("<div>".toList ++ escape m.longName ++ "</div>".toList) }
+        theValue := xhtml (wrapDiv (escape m.longName)) }
     children := m.reqs.map hierEl ++ hierarchyL m.folders }
 
 /-! ## `_build_content` / `export_module` -/
